@@ -1,4 +1,5 @@
 import Rie.Proofs.Sys
+import Rie.Proofs.SysInv
 
 /-!
 # C05 — Timeout: bounded answer, full teardown, fresh environment next
@@ -47,6 +48,17 @@ theorem C05_cancel_unblocks (s : State) (hc : allCanceled s) :
     (s.orch = .vAwaitAgentsReady → (orchResume s).isSome = true) := by
   obtain ⟨h0, h1, h2, h3, h4, h5, h6⟩ := hc
   refine ⟨?_, ?_, ?_, ?_, ?_, ?_⟩ <;> intros <;> simp_all [orchResume, Latch.isOpen]
+
+/-- **The timeout is always armed — whole runs.** In every state reachable from an initial
+    configuration by any ops under any scheduler choices (distinct caller numbers), every call that
+    still waits in `Server.Invoke`'s main select has its function-timeout timer armed: no
+    invocation can wait without its timeout pending, whatever the runtime, the extensions or the
+    processes did or failed to do. (`C05_expiry` below says what the firing does.) -/
+theorem C05_timeout_armed (s0 : State) (h0 : Initial s0) (ops : List (Nat × Op)) (hfresh : (submitted ops).Nodup) :
+    ∀ f ∈ (run s0 [] ops).1.flights, f.g0 = .selecting → Timer.invoke f.caller ∈ (run s0 [] ops).1.timers := by
+  have i := inv_run s0 ops (inv_initial s0 h0) (by simpa using hfresh)
+  intro f hf hs
+  exact mem_invT.mp (i.armed f.caller (mem_selv.mpr ⟨f, hf, rfl, by simp [hs]⟩))
 
 /-- **Expiry.** When the timer of a caller that is still waiting fires, a reset with reason Timeout
     is queued for the handler mutex, the flows are cancelled (if they were not already) and the
